@@ -247,7 +247,7 @@ theorem step_R (cfg : Cfg) (s : St) (op : Op) (hp : ∀ inp parse, op = .recv in
   | setRespTimeout ms => exact R.ns rfl
   | acquire => exact R.ns rfl
   | register id => exact R.ns rfl
-  | release id => exact R.ns (ns_releaseIfUsed _ id)
+  | release id => exact R.ns (by show nsOf (releasePacketId _ id).ev = _; rw [releasePacketId_ev']; exact ns_releaseIfUsed _ id)
   | erase id => exact R.ns (ns_eraseStoredPublish _ id)
   | restoreHandled ids => exact R.ns rfl
   | restorePackets ps => exact R.ns (by show nsOf (restorePackets _ ps).ev = _; rw [ns_restorePackets])
